@@ -245,11 +245,12 @@ def restore(out, i, src_live, op, recipe, tol, phase):
     r2["init_seed"] = op["init_seed"]
     if src_live.is_var:
         torch.manual_seed(op["init_seed"])
-        new = zoo.build_variational(r2)
+        new = zoo.build_variational(r2, variant=1)
     else:
         st = zoo.exact_state(src)
         torch.manual_seed(op["init_seed"])
-        new = zoo.build_exact(r2, data={"inputs": st["inputs"], "targets": st["targets"], "fixed_noise": st["fixed_noise"]})
+        # variant 1: other prior parameters and constraint bounds (numbers that must travel in the state_dict)
+        new = zoo.build_exact(r2, data={"inputs": st["inputs"], "targets": st["targets"], "fixed_noise": st["fixed_noise"]}, variant=1)
     zoo.randomise_parameters(new, op["init_seed"] + 1)
     restored = driver.Live(recipe, model=new)
     if src_live.is_var:
